@@ -493,6 +493,19 @@ class Interp:
         return FnItem(text, fr.env)
 
     # ------------------------------------------------------------------ rvalues
+    INT_BITS = {'u8': 8, 'u16': 16, 'u32': 32, 'u64': 64, 'usize': 64, 'u128': 128}
+
+    def not_typed(self, fr, r, ty):
+        """`Not` whose operand is a concrete integer needs the width, taken from the destination local's declared type"""
+        v = self.operand(fr, r[2])
+        if isinstance(v, int) and not isinstance(v, bool) and ty in self.INT_BITS:
+            return v ^ ((1 << self.INT_BITS[ty]) - 1)
+        if isinstance(v, bool):
+            return not v
+        if isinstance(v, int):
+            raise Unsupported('bitwise not on int of type %s' % ty)
+        return z3.Not(v) if z3.is_bool(v) else ~v
+
     def rvalue(self, fr, r):
         k = r[0]
         if k == 'use':
@@ -736,8 +749,11 @@ class Interp:
                     self.steps += 1
                     k = st[0]
                     if k == 'assign':
-                        v = self.rvalue(fr, st[2])
                         p = st[1]
+                        if st[2][0] == 'unop' and st[2][1] == 'Not' and p[0] == 'local':
+                            v = self.not_typed(fr, st[2], f.locals.get(p[1]))
+                        else:
+                            v = self.rvalue(fr, st[2])
                         if p[0] == 'local':
                             locs[p[1]] = v
                         else:
